@@ -36,3 +36,123 @@ pub proof fn lemma_c06_star_local(oc: ClusterStore, nc: ClusterStore, failed: Se
         }
     }
 }
+
+// ---------- global form of clause (*): for EVERY entry of the cluster ----------
+// twin invariant (the part of INV_twin of DESIGN 4.1 that this lemma needs): every entry has valid indices and the
+// cluster holds its migrating copy in the source half and its importing copy in the destination half
+pub open spec fn has_copy(cs: ClusterStore, c: int, p: int, m: MigrationMetaStore, migrating: bool) -> bool {
+    exists|i: int| 0 <= i < cs.chunks@[c].migrating_slots[p]@.len() && (#[trigger] cs.chunks@[c].migrating_slots[p]@[i]).meta == m
+        && cs.chunks@[c].migrating_slots[p]@[i].is_migrating == migrating
+}
+pub open spec fn inv_twin(cs: ClusterStore) -> bool {
+    forall|c: int, p: int, i: int| 0 <= c < cs.chunks@.len() && 0 <= p < 2 && 0 <= i < cs.chunks@[c].migrating_slots[p]@.len() ==> {
+        let x = #[trigger] cs.chunks@[c].migrating_slots[p]@[i];
+        valid_meta(x.meta, cs.chunks@.len() as int)
+        && has_copy(cs, x.meta.src_chunk_index as int, x.meta.src_chunk_part as int, x.meta, true)
+        && has_copy(cs, x.meta.dst_chunk_index as int, x.meta.dst_chunk_part as int, x.meta, false)
+    }
+}
+pub proof fn lemma_positions_of_contains(a: Seq<MigrationSlotRangeStore>, i: int)
+    requires 0 <= i < a.len()
+    ensures positions_of(a).contains((a[i].meta.src_chunk_index, a[i].meta.src_chunk_part)),
+            positions_of(a).contains((a[i].meta.dst_chunk_index, a[i].meta.dst_chunk_part)),
+    decreases a.len()
+{
+    if i < a.len() - 1 {
+        lemma_positions_of_contains(a.drop_last(), i);
+        assert(a.drop_last()[i] == a[i]);
+    } else {
+        assert(a.last() == a[i]);
+    }
+}
+// which halves of the hit chunk change their master node
+pub proof fn lemma_moved_half(rp: ChunkRolePosition, h: int, p: int)
+    requires 0 <= h < 2, 0 <= p < 2, rp != flipped(h), master_node(rp, p) != master_node(flipped(h), p)
+    ensures p == h || rp == flipped(1 - h)
+{ }
+// every entry of a re-stamped half contributes its source and destination position to the peer set
+pub proof fn lemma_peers_of_moved_half(ch: ChunkStore, h: int, q: int, k: int)
+    requires 0 <= h < 2, 0 <= q < 2, q == h || both_moved(ch, h), 0 <= k < ch.migrating_slots[q]@.len()
+    ensures ({ let x = ch.migrating_slots[q]@[k];
+        hit_peers(ch, h).contains((x.meta.src_chunk_index, x.meta.src_chunk_part)) && hit_peers(ch, h).contains((x.meta.dst_chunk_index, x.meta.dst_chunk_part)) })
+{
+    let a = ch.migrating_slots[h]@; let b = ch.migrating_slots[1 - h]@;
+    if q == h {
+        if both_moved(ch, h) { lemma_positions_of_contains(a + b, k); assert((a + b)[k] == a[k]); } else { lemma_positions_of_contains(a, k); }
+    } else {
+        lemma_positions_of_contains(a + b, a.len() + k); assert((a + b)[a.len() + k] == b[k]);
+    }
+}
+// role positions after the takeover: only the hit chunk changes, to flipped(h)
+pub proof fn lemma_roles_after(oc: ClusterStore, nc: ClusterStore, failed: Seq<char>, e: u64, j: int, k: int)
+    requires takeover_post(oc, nc, failed, e), is_first_hit(oc, j, failed),
+        oc.chunks@[j].role_position != flipped(hit_half(oc.chunks@[j], failed)), 0 <= k < oc.chunks@.len(),
+    ensures nc.chunks@[k].role_position == (if k == j { flipped(hit_half(oc.chunks@[j], failed)) } else { oc.chunks@[k].role_position })
+{
+    let h = hit_half(oc.chunks@[j], failed);
+    assert(chunk_final(oc.chunks@[k], nc.chunks@[k], k == j, h, hit_peers(oc.chunks@[j], h), e));
+}
+// what the takeover does to one entry
+pub proof fn lemma_entry_after(oc: ClusterStore, nc: ClusterStore, failed: Seq<char>, e: u64, j: int, c: int, p: int, i: int)
+    requires takeover_post(oc, nc, failed, e), is_first_hit(oc, j, failed),
+        oc.chunks@[j].role_position != flipped(hit_half(oc.chunks@[j], failed)),
+        0 <= c < oc.chunks@.len(), 0 <= p < 2, 0 <= i < oc.chunks@[c].migrating_slots[p]@.len(),
+    ensures ({
+        let h = hit_half(oc.chunks@[j], failed);
+        let x = oc.chunks@[c].migrating_slots[p]@[i];
+        0 <= i < nc.chunks@[c].migrating_slots[p]@.len()
+        && entry_post(x, nc.chunks@[c].migrating_slots[p]@[i], (c == j && (h == p || both_moved(oc.chunks@[j], h))) || touches(x.meta, hit_peers(oc.chunks@[j], h)), e)
+    })
+{
+    let h = hit_half(oc.chunks@[j], failed);
+    assert(chunk_final(oc.chunks@[c], nc.chunks@[c], c == j, h, hit_peers(oc.chunks@[j], h), e));
+}
+pub proof fn lemma_twin_copies(oc: ClusterStore, c: int, p: int, i: int)
+    requires inv_twin(oc), 0 <= c < oc.chunks@.len(), 0 <= p < 2, 0 <= i < oc.chunks@[c].migrating_slots[p]@.len(),
+    ensures ({ let x = oc.chunks@[c].migrating_slots[p]@[i];
+        valid_meta(x.meta, oc.chunks@.len() as int)
+        && has_copy(oc, x.meta.src_chunk_index as int, x.meta.src_chunk_part as int, x.meta, true)
+        && has_copy(oc, x.meta.dst_chunk_index as int, x.meta.dst_chunk_part as int, x.meta, false) })
+{ }
+// (*) global: any entry whose rendered source or destination master node changes carries the new migration epoch
+pub proof fn lemma_c06_star_global(oc: ClusterStore, nc: ClusterStore, failed: Seq<char>, e: u64, j: int, c: int, p: int, i: int)
+    requires takeover_post(oc, nc, failed, e), inv_twin(oc), is_first_hit(oc, j, failed),
+        oc.chunks@[j].role_position != flipped(hit_half(oc.chunks@[j], failed)),
+        0 <= c < oc.chunks@.len(), 0 <= p < 2, 0 <= i < oc.chunks@[c].migrating_slots[p]@.len(),
+    ensures ({
+        let x = oc.chunks@[c].migrating_slots[p]@[i];
+        let y = nc.chunks@[c].migrating_slots[p]@[i];
+        &&& 0 <= i < nc.chunks@[c].migrating_slots[p]@.len()
+        &&& y.meta.src_chunk_index == x.meta.src_chunk_index && y.meta.src_chunk_part == x.meta.src_chunk_part
+        &&& y.meta.dst_chunk_index == x.meta.dst_chunk_index && y.meta.dst_chunk_part == x.meta.dst_chunk_part
+        &&& y.range_list == x.range_list && y.is_migrating == x.is_migrating
+        &&& (rendered(x.meta, oc) != rendered(y.meta, nc) ==> y.meta.epoch == e)
+        &&& (y.meta.epoch == e || y.meta.epoch == x.meta.epoch)
+    })
+{
+    hide(takeover_post);
+    hide(inv_twin);
+    let h = hit_half(oc.chunks@[j], failed);
+    let chj = oc.chunks@[j];
+    let peers = hit_peers(chj, h);
+    let x = oc.chunks@[c].migrating_slots[p]@[i];
+    lemma_entry_after(oc, nc, failed, e, j, c, p, i);
+    lemma_twin_copies(oc, c, p, i);
+    let y = nc.chunks@[c].migrating_slots[p]@[i];
+    let si = x.meta.src_chunk_index as int; let sp = x.meta.src_chunk_part as int;
+    let di = x.meta.dst_chunk_index as int; let dp = x.meta.dst_chunk_part as int;
+    lemma_roles_after(oc, nc, failed, e, j, si);
+    lemma_roles_after(oc, nc, failed, e, j, di);
+    if rendered(x.meta, oc) != rendered(y.meta, nc) {
+        if master_node(oc.chunks@[si].role_position, sp) != master_node(nc.chunks@[si].role_position, sp) {
+            lemma_moved_half(chj.role_position, h, sp);
+            let k = choose|k: int| 0 <= k < oc.chunks@[si].migrating_slots[sp]@.len() && (#[trigger] oc.chunks@[si].migrating_slots[sp]@[k]).meta == x.meta && oc.chunks@[si].migrating_slots[sp]@[k].is_migrating == true;
+            lemma_peers_of_moved_half(chj, h, sp, k);
+        } else {
+            lemma_moved_half(chj.role_position, h, dp);
+            let k = choose|k: int| 0 <= k < oc.chunks@[di].migrating_slots[dp]@.len() && (#[trigger] oc.chunks@[di].migrating_slots[dp]@[k]).meta == x.meta && oc.chunks@[di].migrating_slots[dp]@[k].is_migrating == false;
+            lemma_peers_of_moved_half(chj, h, dp, k);
+        }
+        assert(touches(x.meta, peers));
+    }
+}
